@@ -275,6 +275,13 @@ def collect(prog, funcs):
                 b_ = f.nodes[f.strip(n['ch'][0], 'all')]
                 if b_['k'] == 'DeclRefExpr' and str(b_['decl'].get('name', '')).startswith(('__begin', '__range', '__end')):
                     continue   # the hidden iterator of a range-for: dereferenced only between begin and end
+                b2_ = b_
+                hops_ = 0
+                while b2_['k'] in ('CXXReinterpretCastExpr', 'CStyleCastExpr', 'CXXStaticCastExpr', 'ImplicitCastExpr', 'ParenExpr', 'CXXConstCastExpr') and b2_['ch'] and hops_ < 6:
+                    b2_ = f.nodes[b2_['ch'][0]]
+                    hops_ += 1
+                if b2_['k'] == 'UnaryOperator' and b2_.get('op') == '&':
+                    continue   # *(T*)&object : the first bytes of an existing object
                 sites.append(Site(f, n['id'], 'deref', n['ch'][0], None))
     return sites
 
@@ -728,6 +735,22 @@ def prove_deref(prog, s, ctx, R):
                 return 'unproved', None, 'buffer of %d bytes read as %d bytes' % (val, tw)
         if sizes:
             return 'ok', 'G4', 'member buffer allocated with at least %d bytes in every constructor' % tw
+    if inner['k'] == 'DeclRefExpr' and inner['decl'].get('dk') == 'local':
+        # a local pointer that is null or the address of an object (`T* hit = nullptr; ... hit = &element;`), dereferenced on the non-null side
+        C = uncast(R.render(s.cont_node))
+        fa = facts_at(f, R, s.nid)
+        if any((l_ == C and op_ == '!=' and str(r_) in ('0', 'nullptr')) or (l_ == C and op_ == '>' and str(r_) == '0') for l_, op_, r_, _x in fa):
+            srcs = []
+            for nd in f.nodes:
+                if nd['k'] == 'BinaryOperator' and nd.get('op') == '=' and uncast(R.render(nd['ch'][0])) == C:
+                    srcs.append(f.nodes[f.strip(nd['ch'][1], 'all')])
+            from paths import local_init
+            ini = local_init(f, inner['decl']['id'])
+            if ini is not None:
+                srcs.append(f.nodes[f.strip(ini, 'all')])
+            if srcs and all(x['k'] in ('CXXNullPtrLiteralExpr', 'GNUNullExpr') or str(x.get('cv')) == '0' or (x['k'] == 'UnaryOperator' and x.get('op') == '&') for x in srcs):
+                return 'ok', 'G8', 'local pointer that is null or the address of an object, dereferenced under a non-null test'
+        return 'undecided', None, 'dereference of a local pointer whose target the rule does not follow [shape not read by the rule]'
     return 'unproved', None, 'raw pointer dereference'
 
 
